@@ -29,7 +29,9 @@
 EXTENDS Binding
 
 CONSTANTS K,          \* structural depth up to which schemas are unfolded
-          MaxHops     \* bound on consecutive reference hops without structure (alias chains)
+          MaxHops,    \* bound on consecutive reference hops without structure (alias chains)
+          ParamPrecedence   \* "term": an argument reached through a parameter keeps what is written on it (as everywhere else);
+                            \* "use": the annotations reaching the parameter's use win over it (what eval_binding does - the pinned behaviour)
 
 \* ---- abstract schemas ---------------------------------------------------------------------
 Sch(t, n, fl, kids) == [t |-> t, n |-> n, fl |-> fl, kids |-> kids, an |-> <<>>]
@@ -53,6 +55,11 @@ SchemaKeys(t) ==
      [] t = "string" -> {"pattern", "enum", "format", "example", "minLength", "maxLength"}
      [] OTHER -> {})
 WithAn(s, J) == [s EXCEPT !.an = Pick(J, SchemaKeys(s.t))]
+\* a marker at the head of the incoming annotations: they win over what is written on the term they reach
+PwMark == [key |-> "__pw__", val |-> "", ty |-> ""]
+HasPw(I) == I # <<>> /\ I[1].key = "__pw__"
+NoPw(I) == IF HasPw(I) THEN Tail(I) ELSE I
+Fwd(I, X) == IF HasPw(I) THEN <<PwMark>> \o X ELSE X
 Cut == Sch("...", "", 0, <<>>)
 Leaf(t) == Sch(t, "", 0, <<>>)
 PropS(name, req, s) == Sch("prop", name, req, <<s>>)
@@ -131,7 +138,7 @@ NodeOf(prog, m, p) ==
 RECURSIVE D(_, _, _, _, _, _, _, _)
 D(prog, tables, m, p, env, d, h, I) ==
   LET nd == NodeOf(prog, m, p)
-      J == AExt(I, Own(nd))                                                                   \* what is written on the term wins
+      J == IF HasPw(I) THEN AExt(Own(nd), NoPw(I)) ELSE AExt(I, Own(nd))                         \* what is written on the term wins (unless marked)
       sub(i, dd) == D(prog, tables, m, Append(p, i), env, dd, IF dd > d THEN 0 ELSE h, <<>>)     \* hops are reset by structure only
       schemaAt(i) == IF d >= K THEN Cut ELSE AsSchema(sub(i, d + 1))
       xferBottom == [methods |-> "BOTTOM", params |-> <<>>, domain |-> <<>>, ranges |-> <<>>, desc |-> "", summary |-> "", tags |-> "", id |-> ""]
@@ -198,12 +205,13 @@ D(prog, tables, m, p, env, d, h, I) ==
                 ELSE IF h >= MaxHops THEN VSchema(Cut)
                 ELSE LET f == env[i] IN
                      IF f.kind = "rec" THEN D(prog, tables, f.m, f.p, f.env, d, h + 1, f.an)      \* unfold the rec expression again
-                     ELSE D(prog, tables, f.m, f.p, f.env, d, h + 1, J)                          \* the argument, as if written here
+                     ELSE D(prog, tables, f.m, f.p, f.env, d, h + 1,                            \* the argument, as if written here
+                            IF ParamPrecedence = "use" THEN <<PwMark>> \o J ELSE Fwd(I, J))
            [] OTHER ->
                 LET dc == prog.mods[b.m][b.p[1]]
                     \* the use site wins over the declaration line; a recursive declaration is a component shared by all
                     \* its uses (like an explicit reference): it carries its own annotations only
-                    I2 == IF b.p[1] \in tables.rec[b.m] THEN Own(dc) ELSE AExt(Own(dc), J)
+                    I2 == IF b.p[1] \in tables.rec[b.m] THEN Own(dc) ELSE Fwd(I, AExt(Own(dc), J))
                 IN
                 IF dc.n > 0 THEN VFun(b.m, b.p)
                 ELSE IF dc.q = "@"
@@ -219,7 +227,7 @@ D(prog, tables, m, p, env, d, h, I) ==
          THEN LET dc == prog.mods[f.m][f.p[1]]
                   k == IF Len(nd.a) - 1 < dc.n THEN Len(nd.a) - 1 ELSE dc.n
               IN D(prog, tables, f.m, <<f.p[1], dc.n + 1>>,
-                   [j \in 1..k |-> Frame(B(f.m, <<f.p[1], j>>, "param"), "thunk", m, Append(p, j + 1), env)], d, h, AExt(Own(dc), J))
+                   [j \in 1..k |-> Frame(B(f.m, <<f.p[1], j>>, "param"), "thunk", m, Append(p, j + 1), env)], d, h, Fwd(I, AExt(Own(dc), J)))
          ELSE VBottom("apply")
     [] OTHER -> VBottom(nd.k)
 
